@@ -20,3 +20,6 @@ package tlstcp
 //@
 //@ func (*listener).Listen$1
 //@   before call:SetOption#1 assert arg0 == mangos.OptionMaxRecvSize && arg1 == iface(l.maxRecvSize) && held(l.lock)
+//@
+//@ func (*listener).Close$1
+//@   may_close l.closeQ once
